@@ -19,6 +19,18 @@ def engine(repo: Repo, **kw) -> MayRaise:
     return mr
 
 
+def _reviewed_lookup(reviewed: dict, key: str):
+    """exact identity, or a table key with one `…` standing for any text (operands that do not matter to the argument)"""
+    if key in reviewed:
+        return reviewed[key]
+    for k, v in reviewed.items():
+        if k.count("…") == 1:
+            a, b = k.split("…")
+            if len(key) >= len(a) + len(b) and key.startswith(a) and key.endswith(b):
+                return v
+    return None
+
+
 def check_entry(chk: Check, mr: MayRaise, entry: FuncInfo, declared: Iterable[str], *, ctx: ClassInfo | None = None, label: str | None = None,
                 reviewed: dict[str, tuple[str, Callable[[], bool] | None]] | None = None, rule: str = "no-undeclared-escape") -> list[Esc]:
     """Obligation: every exception class that can leave `entry` is (a subclass of) a declared one.
@@ -34,7 +46,7 @@ def check_entry(chk: Check, mr: MayRaise, entry: FuncInfo, declared: Iterable[st
         if any(mr.is_sub(e.exc, d) for d in declared):
             n_decl += 1
             continue
-        rv = (reviewed or {}).get(e.key)
+        rv = _reviewed_lookup(reviewed or {}, e.key)
         if rv is not None and (rv[1] is None or rv[1]()):
             chk.ob("reviewed-safe-site", e.site, True, f"{lab}: {e.exc} at `{e.stmt}` in {e.func} cannot occur: {rv[0]}", key=f"reviewed|{lab}|{e.key}")
             continue
